@@ -122,10 +122,10 @@ func (o *out) Fail(oracle, class, failkind string, detail interface{}) {
 	}
 	fmt.Fprintf(o.w, "O\t%s\t%s\t%s\t%s\n", oracle, class, failkind, js)
 }
-func (o *out) Pass(oracle string)        { o.pass[oracle]++ }
-func (o *out) Stat(key string)           { o.stats[key]++ }
-func (o *out) StatN(key string, n int)   { o.stats[key] += n }
-func (o *out) Nontrivial(key string)     { o.nontriv[key] = true }
+func (o *out) Pass(oracle string)      { o.pass[oracle]++ }
+func (o *out) Stat(key string)         { o.stats[key]++ }
+func (o *out) StatN(key string, n int) { o.stats[key] += n }
+func (o *out) Nontrivial(key string)   { o.nontriv[key] = true }
 func (o *out) Sample(v interface{}) {
 	if o.samples >= 12 {
 		return
